@@ -27,18 +27,25 @@ Record mrow := MRow { m_ver : N; m_gstruct : string; m_gfield : string;
                       m_cstruct : string; m_cpaths : list string; m_rel : rel }.
 
 Record trow := TRow { t_ver : N; t_name : string; t_size : N }.          (* total sizes, bytes *)
-Record tmrow := TMRow { tm_ver : N; tm_gname : string; tm_cname : string }.
+(* tm_ge = false: the Go size equals sizeof of the C type; tm_ge = true: the Go side reserves room that
+   must be able to hold the C type (Go size >= sizeof) - used for the policy program's IP set key stack slot,
+   which has the IPv6 key size in both families. *)
+Record tmrow := TMRow { tm_ver : N; tm_gname : string; tm_cname : string; tm_ge : bool }.
 
 Record tables := Tables {
   T_c : list crow; T_g : list grow; T_m : list mrow;
   T_ctot : list trow; T_gtot : list trow; T_mtot : list tmrow }.
 
 Definition find_m (T : tables) (g : grow) : option mrow :=
-  find (fun m => N.eqb (m_ver m) (g_ver g) && String.eqb (m_gstruct m) (g_struct g)
-                 && String.eqb (m_gfield m) (g_field g)) (T_m T).
+  (* nested ifs rather than &&: under call-by-value evaluation the string comparisons are then only run when needed *)
+  find (fun m => if N.eqb (m_ver m) (g_ver g) then
+                   if String.eqb (m_gstruct m) (g_struct g) then String.eqb (m_gfield m) (g_field g) else false
+                 else false) (T_m T).
 
 Definition find_c (T : tables) (ver : N) (s p : string) : option crow :=
-  find (fun c => N.eqb (c_ver c) ver && String.eqb (c_struct c) s && String.eqb (c_path c) p) (T_c T).
+  find (fun c => if N.eqb (c_ver c) ver then
+                   if String.eqb (c_struct c) s then String.eqb (c_path c) p else false
+                 else false) (T_c T).
 
 (* The bit span [off, off+size) covered by consecutive C members; None if a member does not
    exist in the C definition or the members are not adjacent. *)
@@ -78,13 +85,14 @@ Definition field_size_agrees (T : tables) (g : grow) : Prop :=
   exists m off sz, find_m T g = Some m /\ span T m = Some (off, sz) /\ size_related (m_rel m) (g_size g) sz.
 
 Definition find_tm (T : tables) (t : trow) : option tmrow :=
-  find (fun m => N.eqb (tm_ver m) (t_ver t) && String.eqb (tm_gname m) (t_name t)) (T_mtot T).
+  find (fun m => if N.eqb (tm_ver m) (t_ver t) then String.eqb (tm_gname m) (t_name t) else false) (T_mtot T).
 
 Definition find_ct (T : tables) (ver : N) (n : string) : option trow :=
-  find (fun c => N.eqb (t_ver c) ver && String.eqb (t_name c) n) (T_ctot T).
+  find (fun c => if N.eqb (t_ver c) ver then String.eqb (t_name c) n else false) (T_ctot T).
 
 Definition total_agrees (T : tables) (t : trow) : Prop :=
-  exists m c, find_tm T t = Some m /\ find_ct T (t_ver t) (tm_cname m) = Some c /\ t_size t = t_size c.
+  exists m c, find_tm T t = Some m /\ find_ct T (t_ver t) (tm_cname m) = Some c /\
+              if tm_ge m then t_size c <= t_size t else t_size t = t_size c.
 
 (* No stale mapping: every mapping line is about a field the Go code (still) has. *)
 Definition mapping_used (T : tables) (m : mrow) : Prop :=
@@ -113,13 +121,16 @@ Definition size_okb (T : tables) (g : grow) : bool :=
 
 Definition total_okb (T : tables) (t : trow) : bool :=
   match find_tm T t with
-  | Some m => match find_ct T (t_ver t) (tm_cname m) with Some c => N.eqb (t_size t) (t_size c) | None => false end
+  | Some m => match find_ct T (t_ver t) (tm_cname m) with
+              | Some c => if tm_ge m then N.leb (t_size c) (t_size t) else N.eqb (t_size t) (t_size c)
+              | None => false end
   | None => false
   end.
 
 Definition mapping_usedb (T : tables) (m : mrow) : bool :=
-  existsb (fun g => N.eqb (g_ver g) (m_ver m) && String.eqb (g_struct g) (m_gstruct m)
-                    && String.eqb (g_field g) (m_gfield m)) (T_g T).
+  existsb (fun g => if N.eqb (g_ver g) (m_ver m) then
+                      if String.eqb (g_struct g) (m_gstruct m) then String.eqb (g_field g) (m_gfield m) else false
+                    else false) (T_g T).
 
 (* diagnostics: positions (0-based) of the rows a check rejects *)
 Fixpoint bad_from {A} (f : A -> bool) (l : list A) (i : N) : list N :=
@@ -131,3 +142,12 @@ Definition bad {A} (f : A -> bool) (l : list A) : list N := bad_from f l 0.
 
 Definition rows_of (ver : N) (l : list grow) := filter (fun g => N.eqb (g_ver g) ver) l.
 Definition totals_of (ver : N) (l : list trow) := filter (fun t => N.eqb (t_ver t) ver) l.
+
+(* selecting / removing rows by position: used by the generated Gen.v to split the complete tables
+   (VerifGen.all.GenAll) into the tables the theorems are about and the rows of recorded findings *)
+Fixpoint indexed_from {A} (l : list A) (i : N) : list (N * A) :=
+  match l with [] => [] | x :: l' => (i, x) :: indexed_from l' (i + 1) end.
+Definition pick_idx {A} (l : list A) (idx : list N) : list A :=
+  map snd (filter (fun p => existsb (N.eqb (fst p)) idx) (indexed_from l 0)).
+Definition drop_idx {A} (l : list A) (idx : list N) : list A :=
+  map snd (filter (fun p => negb (existsb (N.eqb (fst p)) idx)) (indexed_from l 0)).
